@@ -880,12 +880,12 @@ pub fn run_c07_c08(prop: &str) {
     }
     if with_c08 {
         if counters.get("lookups").copied().unwrap_or(0) == 0 {
-            mc::machinery("C08 vacuous: no lookups");
+            rep.vacuous("C08 vacuous: no lookups");
         }
     } else {
         for k in ["promotions", "pending_created", "full_with_pending", "discard_on_reconnect", "promotions_evicting"] {
             if counters.get(k).copied().unwrap_or(0) == 0 {
-                mc::machinery(&format!("C07 vacuous: activation counter {k} = 0"));
+                rep.vacuous(&format!("C07 vacuous: activation counter {k} = 0"));
             }
         }
     }
@@ -1370,7 +1370,7 @@ pub fn run_c16() {
     }
     for k in ["refusals", "promotions", "at_table_limit"] {
         if counters.get(k).copied().unwrap_or(0) == 0 {
-            mc::machinery(&format!("C16 vacuous: {k} = 0"));
+            rep.vacuous(&format!("C16 vacuous: {k} = 0"));
         }
     }
     rep.finish();
